@@ -1,5 +1,5 @@
 """C09 — a real stack against the active reference peer (see tpconf.py)."""
-import json
+import netcorr, json
 import common as C
 import sprop, tpconf, corr21, scen
 
@@ -8,7 +8,8 @@ FILES = ['theories/Base.v', 'theories/gen/Codec.v', 'theories/gen/Tp21Gen.v', 't
          'proofs/Tp21Resp.v', 'proofs/Tp21Orig.v', 'proofs/WireProofs.v', 'proofs/PacingProofs.v',
          'theories/gen/Tp22Gen.v', 'theories/Model22.v', 'theories/Replay22.v', 'proofs/TimeoutProofs.v', 'proofs/MpgProofs.v', 'proofs/PoolProofs.v',
          'proofs/Tp22Proofs.v', 'proofs/Tp22Resp.v', 'proofs/Tp22Orig.v',
-         'proofs/RobustProofs.v', 'proofs/NoOversleep.v', 'proofs/NoOversleep22.v']
+         'proofs/RobustProofs.v', 'proofs/NoOversleep.v', 'proofs/NoOversleep22.v',
+         'proofs/Net21.v', 'proofs/Net21Proofs.v', 'proofs/Net21Bam.v', 'proofs/Net22.v', 'proofs/Net22Proofs.v', 'proofs/Net22Bam.v']
 runner = tpconf.runner
 oracle = tpconf.oracle_c09
 
@@ -129,9 +130,20 @@ def run(out, tier, rng, work):
         for x in oracle(sc, res):
             if x['kind'] not in worst or len(json.dumps(sc)) < len(json.dumps(worst[x['kind']][1])):
                 worst[x['kind']] = (x, sc)
+    # pacing end to end: the timed network model of theorems C09_bam_closed_loop_paced / C09_fd_bam_closed_loop_paced against
+    # two real stacks — the frames, the callbacks and the TIME of every frame of the broadcast
+    for only in ('bam21', 'bamfd'):
+        nn, nmism, nerrors, nbad = netcorr.run(work, rng, 6 if tier == 'quick' else 60, big=(tier != 'quick'), tag='c09' + only, only=only)
+        out.extra['paced_closed_loop_cases_' + only] = nn
+        out.traces_validated += nn
+        for name, o in nerrors[:3]:
+            out.broken.append('paced closed-loop correspondence %s did not evaluate: %s' % (name, o[-200:].replace('\n', ' ')))
+        for c, i, m, im in nmism[:3]:
+            out.broken.append('paced closed-loop correspondence: network model and two real stacks differ (case %s) at observation %s: model %s / impl %s'
+                              % (c, i, str(m)[:120], str(im)[:120]))
     sub = [(dict(tpconf.scen_for_corr(sc)), res) for sc, res in runs if sc['dll'] == 'j1939-21']
     ntr, mism, errors = corr21.correspond(work, sub, tag='c09')
-    out.traces_validated = ntr
+    out.traces_validated += ntr
     for e in errors:
         out.broken.append('correspondence %s did not evaluate: %s' % (e[0], e[1][-300:].replace('\n', ' ')))
     j21 = [sc for sc, res in runs if sc['dll'] == 'j1939-21']
